@@ -23,6 +23,8 @@ HEX_UNIVERSES = {
     "HP3": ["01", "0123", "0145"],
     # three keys with the same tail under three branch slots (with one long value: a hashed leaf referenced three times)
     "H3S": ["1001", "2001", "3001", "40"],
+    # deleting 0001 collapses a branch into a leaf that is byte-identical to the leaf of key 12 (same remaining nibble, same value)
+    "HC": ["0001", "0002", "12"],
     "HW4": ["", "00", "70", "f0"],
     "H4b": ["12", "1234", "1235", "1245"],
     "HL": [
